@@ -97,14 +97,15 @@ Definition dec_elem (little : bool) (t : ty4) (b : bytes) : value :=
   else if is_signed t then VInt (to_signed (width t) x) else VInt (Z.of_N x).
 
 (* unpack_dap4_data: numpy.frombuffer(buffer[start:stop]).reshape(shape) fails unless the slice has
-   exactly count bytes; the checksum slice is lenient *)
+   exactly count bytes; numpy.frombuffer of the checksum slice buffer[stop:stop+4] fails unless it has 0 or 4 bytes *)
 Fixpoint decode_vars (little : bool) (buf : bytes) (vars : list var4) : option (list (list value)) :=
   match vars with
   | [] => Some []
   | v :: vs =>
       let cnt := vcount v * width (vty v) in
       let slice := firstn cnt buf in
-      if List.length slice =? cnt then
+      let cks := List.length (firstn 4 (skipn cnt buf)) in
+      if (List.length slice =? cnt) && ((cks =? 0) || (cks =? 4)) then
         match decode_vars little (skipn (cnt + 4) buf) vs with
         | None => None
         | Some r => Some (map (dec_elem little (vty v)) (pieces (width (vty v)) (vcount v) slice) :: r)
